@@ -24,7 +24,17 @@ def _data():
 
 # =============================================================================== trn
 
-_TRN_TOK = gen.weighted((9, tx.words(tx.TRN_DELIMS)), (1, tx.words_with_inner_space(tx.TRN_DELIMS)))
+# Tokens that *begin or end* with a non-ASCII blank (or consist of one) do not survive the unchanged reader: it strips every line
+# with str.strip(), which also removes e.g. a no-break space that begins the first token or ends the last one, although the
+# tokenizer itself separates tokens at the ASCII blank only ("transcript is a list split by spaces").  Minimal input:
+# write_trn([("u", ["\u00a0a"])]) reads back as [("u", ["a"])].  Proposed repair: fixes/C11-trn-strip-only-format-blanks.diff;
+# directed case: replays/C11/trn_token_edge_unicode_blank.json.pending (rename to .json once the repair is merged).  Until then
+# the class stays out of the default generator; VERIF_C11_TRN_EDGE_BLANKS=1 switches it on (use with VERIF_REPO_SRC=<patched tree>).
+ENABLE_TRN_EDGE_UNICODE_BLANK = os.environ.get("VERIF_C11_TRN_EDGE_BLANKS") == "1"
+
+_TRN_TOK = gen.weighted(*([(9, tx.words(tx.TRN_DELIMS)), (1, tx.words_with_inner_space(tx.TRN_DELIMS)),
+                           (1, tx.words_with_inner(tx.UNI_SPACES, tx.TRN_DELIMS)), (1, tx.words_with_inner(tx.LINE_SEPS, tx.TRN_DELIMS))]
+                          + ([(2, tx.words_with_edge(tx.UNI_SPACES + tx.LINE_SEPS, tx.TRN_DELIMS))] if ENABLE_TRN_EDGE_UNICODE_BLANK else [])))
 _TRN_UTT_PLAIN = tx.words(tx.TRN_DELIMS, max_size=5)
 _TRN_UTT = st.one_of(
     _TRN_UTT_PLAIN, _TRN_UTT_PLAIN, _TRN_UTT_PLAIN,
@@ -56,9 +66,23 @@ def _trn_api(case):
                 t = times[k % len(times)]
                 k += 1
                 if t is not None:
-                    tr[i] = (x, t[0], t[1])
+                    tr[i] = (x, _num(t[0]), _num(t[1]))
         out.append((u["utt"], tr))
     return out
+
+
+def _num(v):
+    """Times are stored in the case as JSON numbers or, for the non-finite ones, as strings."""
+    return float(v) if isinstance(v, str) else v
+
+
+def _trn_tokens(items):
+    for x in items:
+        if isinstance(x, dict):
+            for b in x["alt"]:
+                yield from _trn_tokens(b)
+        else:
+            yield x
 
 
 def _trn_expected(case):
@@ -74,11 +98,24 @@ def _trn_classes(case):
         cl.append("empty_transcript")
     if any(" " in u["utt"] for u in case["corpus"]):
         cl.append("utt_with_space")
+    toks = [t for u in case["corpus"] for t in _trn_tokens(u["items"])]
+    if any(c in t for t in toks for c in tx.UNI_SPACES):
+        cl.append("token_inner_unicode_space")
+    if any(c in t for t in toks for c in tx.LINE_SEPS):
+        cl.append("token_inner_line_separator")
+    if any(t[:1] in tx.UNI_SPACES + tx.LINE_SEPS or t[-1:] in tx.UNI_SPACES + tx.LINE_SEPS for t in toks):
+        cl.append("token_edge_unicode_blank")
+    if any(isinstance(v, str) or v < 0 or v > 1e6 for t in (case.get("times") or []) if t for v in t):
+        cl.append("garbage_times")
     return depth, cl
 
 
 def _trn_rt_strategy(tier):
-    tm = st.one_of(st.none(), st.tuples(st.integers(0, 50).map(lambda k: k / 4), st.integers(0, 50).map(lambda k: k / 4)).map(list))
+    q = st.integers(0, 50).map(lambda k: k / 4)
+    # "start and end are ignored when writing trn files": anything np.isreal accepts, including garbage
+    junk = st.sampled_from(["inf", "-inf", "nan", -1, -2.5, 1e300, -1e300, 2 ** 70, 0])
+    tm = st.one_of(st.none(), st.tuples(q, q).map(list), st.tuples(q, q).map(list), st.tuples(junk, junk).map(list),
+                   st.tuples(q, junk).map(list))
     return st.fixed_dictionaries({
         "corpus": _trn_corpus(tier),
         "wrap": st.sampled_from([[-1, -1], [-1, -1], [10, 4], [0.5, 1.5]]),
@@ -91,7 +128,8 @@ def _trn_rt_strategy(tier):
           doc="corpora of utterances with alternates nested to depth 3 (top-level alternates wrapped (alts, s, e), tokens "
               "optionally timed): read_trn(write_trn(x)) == x with alternates as ([[..],[..]], -1, -1); read_trn_iter agrees; "
               "a warning is issued iff an alternate occurs and warn=True",
-          required_classes=["nested", "depth_3", "empty_transcript"])
+          required_classes=["nested", "depth_3", "empty_transcript", "token_inner_unicode_space", "token_inner_line_separator",
+                            "garbage_times"] + (["token_edge_unicode_blank"] if ENABLE_TRN_EDGE_UNICODE_BLANK else []))
 def _trn_roundtrip(case):
     data = _data()
     api = _trn_api(case)
@@ -241,7 +279,7 @@ _CTM_TOKEN = st.one_of(_CTM_WORD, _CTM_WORD, tx.words(set(), max_size=4).filter(
 def _ctm_case(draw, tier):
     big = tier == "thorough"
     utts = draw(st.lists(_CTM_WORD, min_size=1, max_size=6 if big else 4, unique=True))
-    timing = draw(st.sampled_from(["dyadic", "dyadic_small", "float"]))
+    timing = draw(st.sampled_from(["dyadic", "dyadic_small", "float", "float", "int", "huge", "tiny"]))
 
     def tm():
         if timing == "dyadic":
@@ -250,6 +288,15 @@ def _ctm_case(draw, tier):
         elif timing == "dyadic_small":  # many equal starts, interleaving utterances
             s = draw(st.integers(0, 8)) / 4
             d = draw(st.integers(0, 4)) / 4
+        elif timing == "int":  # Python ints instead of floats
+            s = draw(st.integers(0, 50))
+            d = draw(st.integers(0, 5))
+        elif timing == "huge":  # up to 2^40 s with durations on the 2^-10 grid: the sum is still exact (50 bits)
+            s = float(draw(st.integers(0, 2 ** 20)) * 2 ** 20)
+            d = draw(st.integers(0, 1024)) / 1024
+        elif timing == "tiny":  # multiples of 2^-40 s: printed in exponent notation
+            s = draw(st.integers(0, 4096)) * 2.0 ** -40
+            d = draw(st.integers(0, 4096)) * 2.0 ** -40
         else:
             s = draw(st.floats(0, 1e4, allow_nan=False, allow_infinity=False, allow_subnormal=False))
             d = draw(st.floats(0, 1e3, allow_nan=False, allow_infinity=False, allow_subnormal=False))
@@ -291,14 +338,19 @@ def _ctm_args(case):
     return api, wargs, wc2utt, key
 
 
-def _ctm_compare(case, got, key, what):
+def _ctm_compare(case, got, key, what, ordered=True):
     """ctm's mandated ordering: utterances by (waveform, channel), tokens by start time; the
-    order of tokens with equal start is not part of the contract (compared as multisets)."""
+    order of tokens with equal start is not part of the contract (compared as multisets).
+    ``ordered=False`` (a file that is not in ctm order): the utterances are compared as a set."""
     nonempty = [u for u in case["corpus"] if u["tokens"]]
     exp_order = [u["utt"] for u in sorted(nonempty, key=lambda u: key[u["utt"]])]
     got = tx.plain(got)
-    require([g[0] for g in got] == exp_order, what + ": utterances / their (waveform, channel) order",
-            [g[0] for g in got], exp_order)
+    if ordered:
+        require([g[0] for g in got] == exp_order, what + ": utterances / their (waveform, channel) order",
+                [g[0] for g in got], exp_order)
+    else:
+        require(sorted(g[0] for g in got) == sorted(exp_order), what + ": utterances (each listed once)",
+                sorted(g[0] for g in got), sorted(exp_order))
     by = {u["utt"]: u["tokens"] for u in nonempty}
     exact = case["timing"] != "float"
     for utt, toks in got:
@@ -343,7 +395,7 @@ def _ctm_info(case):
           doc="1..4 utterances with 0..5 timed tokens (dyadic times: exact; arbitrary floats: end at 1e-9), default / "
               "channel string / injective utt->(wave, channel) map: read_ctm(write_ctm(x), inverse map) == x up to the "
               "mandated (wave, channel, start) ordering",
-          required_classes=["interleaved_utts", "map_dict", "equal_starts", "timing_float"])
+          required_classes=["interleaved_utts", "map_dict", "equal_starts", "timing_float", "timing_int", "timing_huge", "timing_tiny"])
 def _ctm_roundtrip(case):
     data = _data()
     api, wargs, wc2utt, key = _ctm_args(case)
@@ -360,24 +412,36 @@ def _ctm_roundtrip(case):
 # =============================================================================== TextGrid
 
 _TG_CHARS = [c for c in tx._ASCII if c != '"'] + tx._UNI
-_TG_TOKEN = weighted(
+_TG_SYNTAX_LIKE = ["item [1]:", " item [2]:", "    item [1]:", "xmin = 3", "xmax = 1", "text = ", "intervals [1]:", "points [2]:",
+                   "intervals: size = 2", "<exists>", "1.5", "-1", "12", "0", "IntervalTier", "TextTier", "ooTextFile",
+                   'File type = ', "size = 3", "number = 2", "mark = ", "!", "tiers? <exists>"]
+_TG_ODD_BLANKS = tx.UNI_SPACES + tx.LINE_SEPS + ["\t", "\x0c"]
+_TG_PLAIN = [
     (6, tx.words(set('"'), max_size=4)),
     (1, st.text(_TG_CHARS + [" "], min_size=1, max_size=6)),  # blanks inside / around labels
     (1, st.tuples(st.sampled_from(["", " "]), tx.words(set('"'), max_size=2), st.just(" "), tx.words(set('"'), max_size=2),
                   st.sampled_from(["", " "])).map("".join)),
     (1, st.just("")),
-)
+    # blanks other than the ASCII space, anywhere in the label (the reader "does not check for whitespace in or around labels")
+    (1, st.tuples(st.sampled_from(["", "a"]), st.sampled_from(_TG_ODD_BLANKS), st.sampled_from(["", "b", " c"])).map("".join)),
+]
+# write -> read: additionally labels that look like the file's own syntax (only the double quote and the newline delimit a label)
+_TG_TOKEN = weighted(*(_TG_PLAIN + [(1, st.sampled_from(_TG_SYNTAX_LIKE))]))
+# Praat long-format files from the independent writer keep the plain labels: there a label such as ' item [2]:' makes the
+# vendored reader split the tier in two (IndexError in _textgrid.py); the library never writes that format and the statement is
+# about writing and then reading, so such third-party files are outside the property
+_TG_TOKEN_PRAAT = weighted(*_TG_PLAIN)
 _TG_NAME = st.one_of(st.just(None), tx.words(set('"'), max_size=5), st.text(_TG_CHARS + [" "], min_size=0, max_size=6))
 
 
 @st.composite
-def _tg_entries(draw, p, max_n, points=False, min_n=1):
+def _tg_entries(draw, p, max_n, points=False, min_n=1, tok=None):
     """Time-sorted non-overlapping entries whose *printed* start times are strictly
     increasing: boundaries are integers of the 10^-p grid (seconds up to ~230, so two and
     three integer digits occur), optionally moved off the grid by less than half a unit
     (k/16, |k| <= 7), equal boundaries sharing the same value."""
     scale = 10 ** p
-    base = draw(st.sampled_from([0, 0, 0, 7, 8, 9, 9, 97, 98, 99, 150, 198]))
+    base = draw(st.sampled_from([0, 0, 0, 7, 8, 9, 9, 97, 98, 99, 150, 198, 998, 999, 9998, 9999, 99998]))
     inc = st.one_of(st.integers(0, 3), st.integers(0, 3).map(lambda n: n * scale),
                     st.integers(0, 3).map(lambda n: n * max(1, scale // 4)))
     ongrid = draw(st.booleans())
@@ -398,7 +462,7 @@ def _tg_entries(draw, p, max_n, points=False, min_n=1):
         if ln == 0 and not ongrid and points != "exact" and draw(st.integers(0, 3)) == 0:
             # shorter than the print precision: start < end, printed alike
             b = (pos * 16 + draw(st.integers(delta[pos], 7))) / (16 * scale)
-        out.append([draw(_TG_TOKEN), a, b])
+        out.append([draw(tok if tok is not None else _TG_TOKEN), a, b])
         gap = draw(inc)
         if ln + gap == 0:
             gap = 1
@@ -498,6 +562,12 @@ def _tg_classes(case, is_point):
         cl.append("empty_label")
     if any(" " in e[0] for e in entries):
         cl.append("label_with_blank")
+    if any(e[0] in _TG_SYNTAX_LIKE for e in entries):
+        cl.append("label_looks_like_syntax")
+    if any(c in e[0] for e in entries for c in _TG_ODD_BLANKS):
+        cl.append("label_with_odd_blank")
+    if any(e[2] >= 1000 for e in entries):
+        cl.append("time_ge_1000s")
     if case["point_tier"] is False and any(e[1] == e[2] for e in entries):
         cl.append("zero_length_interval")
     if any(e[1] != e[2] and tx.dec_round(e[1], p) == tx.dec_round(e[2], p) for e in entries):
@@ -521,7 +591,8 @@ def _tg_write_read(case, data, f):
               "write_textgrid(x)) == x with times rounded to p decimals (Decimal half-even), gaps filled, order kept; "
               "written tier type and number format as documented",
           required_classes=["gap", "time_ge_10s", "integer_digits_change", "precision_not3", "point_tier",
-                            "interval_tier", "fill_requested", "offgrid", "point_inferred_within_precision"])
+                            "interval_tier", "fill_requested", "offgrid", "point_inferred_within_precision",
+                            "label_looks_like_syntax", "label_with_odd_blank", "time_ge_1000s"])
 def _tg_roundtrip(case):
     data = _data()
     p = case["p"]
@@ -582,7 +653,7 @@ def _praat_case(draw, tier):
     tiers = []
     for i in range(ntiers):
         points = draw(st.booleans())
-        entries, _ = draw(_tg_entries(p, 6 if big else 4, points=points))
+        entries, _ = draw(_tg_entries(p, 6 if big else 4, points=points, tok=_TG_TOKEN_PRAAT))
         first, last = entries[0][1], max(e[2] for e in entries)
         lead = draw(st.sampled_from([0, 0, 1, 2]))
         trail = draw(st.sampled_from([0, 0, 1, 2]))
@@ -659,13 +730,18 @@ def _praat_read(case):
 # =============================================================================== path vs open file
 
 
+# what the path holds before the writer is called: nothing (no such file), or N bytes of other text (longer than most outputs)
+_PRIOR = st.sampled_from([None, None, 0, 7, 400, 5000])
+
+
 def _pvf_strategy(tier):
     return st.one_of(
         st.fixed_dictionaries({"fmt": st.just("trn"), "corpus": _trn_corpus(tier),
-                               "wrap": st.just([-1, -1]), "times": st.just([None])}),
-        _ctm_case(tier).map(lambda c: dict(c, fmt="ctm")),
-        _tg_case(tier).map(lambda c: dict(c, fmt="textgrid")),
-        _tg_case(tier).map(lambda c: dict(c, fmt="textgrid")),
+                               "wrap": st.just([-1, -1]), "times": st.just([None]), "prior": _PRIOR,
+                               "as_generator": st.booleans()}),
+        st.tuples(_ctm_case(tier), _PRIOR).map(lambda c: dict(c[0], fmt="ctm", prior=c[1])),
+        st.tuples(_tg_case(tier), _PRIOR).map(lambda c: dict(c[0], fmt="textgrid", prior=c[1])),
+        st.tuples(_tg_case(tier), _PRIOR).map(lambda c: dict(c[0], fmt="textgrid", prior=c[1])),
     )
 
 
@@ -673,7 +749,7 @@ def _pvf_strategy(tier):
           doc="every writer (trn, ctm with every mapping, TextGrid with every point_tier/precision/start/end/tier name) given a "
               "path and given an open file: byte-identical output; every reader given the path and the open file: equal results",
           required_classes=["fmt_trn", "fmt_ctm", "fmt_textgrid", "precision_not3", "explicit_point_tier", "explicit_interval_tier",
-                            "explicit_interval_all_zero_length"])
+                            "explicit_interval_all_zero_length", "path_rewritten", "transcripts_as_iterator"])
 def _path_vs_file(case):
     data = _data()
     fmt = case["fmt"]
@@ -682,10 +758,23 @@ def _path_vs_file(case):
     with tx.scratch() as d:
         path = os.path.join(d, "out." + fmt)
         f = io.StringIO()
+        prior = case.get("prior")
+        if prior is not None:
+            # the file exists already and holds something else: the writer must replace it, not patch or extend it
+            tx.write_text(path, ("stale line (x)\n" * (prior // 15 + 1))[:prior])
+            cl.append("path_rewritten")
         if fmt == "trn":
             api = _trn_api(case)
             data.write_trn(api, f)
-            data.write_trn(_trn_api(case), path)
+            if case.get("as_generator"):
+                # "From an iterable of transcripts": a one-shot iterator is consumed exactly once
+                data.write_trn(iter(_trn_api(case)), path)
+                g = io.StringIO()
+                data.write_trn((x for x in _trn_api(case)), g)
+                require(g.getvalue() == f.getvalue(), "write_trn given a generator differs from the list", g.getvalue(), f.getvalue())
+                cl.append("transcripts_as_iterator")
+            else:
+                data.write_trn(_trn_api(case), path)
             readers = [lambda src: tx.plain(data.read_trn(src, False)), lambda src: tx.plain(list(data.read_trn_iter(src, False)))]
             depth, c2 = _trn_classes(case)
             nontriv = depth >= 2
@@ -729,13 +818,18 @@ def _path_vs_file(case):
 # =============================================================================== transcript <-> token tensor
 
 _FS = [None, 10, 1, 0.0625]
+# ids are stored in a long tensor: anything in the int64 range is a legal id
+_BIG_ID = st.sampled_from([2 ** 31 - 1, 2 ** 31, -2 ** 31 - 1, 2 ** 40 + 1, -2 ** 40, 2 ** 62, -2 ** 62, 2 ** 63 - 1, -2 ** 63])
+# frame indices beyond the int32 range (a quarter of a frame is still resolved by a double up to ~2^44 frames)
+_BIG_FRAME = st.sampled_from([2 ** 31 - 2, 2 ** 31 - 1, 2 ** 31, 2 ** 32 + 5, 2 ** 40])
 
 
 @st.composite
 def _tok_case(draw, tier):
     big = tier == "thorough"
     vocab = draw(st.lists(tx.words(set(), max_size=3), min_size=1, max_size=6, unique=True))
-    ids = draw(st.lists(st.integers(-3, 60), min_size=len(vocab), max_size=len(vocab), unique=True))
+    ids = draw(st.lists(st.one_of(st.integers(-3, 60), st.integers(-3, 60), _BIG_ID), min_size=len(vocab), max_size=len(vocab),
+                        unique=True))
     oov = draw(st.lists(tx.words(set(), max_size=4).filter(lambda w: w not in vocab), min_size=1, max_size=2, unique=True))
     unk_mode = draw(st.sampled_from(["none", "none", "token", "id"]))
     fs = draw(st.sampled_from(_FS))
@@ -749,7 +843,7 @@ def _tok_case(draw, tier):
         if not timed:
             items.append([tok])
             continue
-        a = draw(st.one_of(st.integers(0, 30), st.integers(0, 20000)))
+        a = draw(st.one_of(st.integers(0, 30), st.integers(0, 20000), st.integers(0, 20000), _BIG_FRAME if timing != "float" else st.integers(0, 30)))
         ln = draw(st.one_of(st.integers(0, 3), st.integers(0, 500)))
         if fs is None:
             items.append([tok, a, a + ln])
@@ -772,7 +866,7 @@ def _tok_case(draw, tier):
         unk = draw(st.integers(61, 70))
     return {"vocab": [[w, i] for w, i in zip(vocab, ids)], "items": items, "fs": fs, "timing": timing,
             "unk_mode": unk_mode, "unk": unk, "skip_frame_times": draw(st.sampled_from([False, False, True])),
-            "no_vocab": False}
+            "no_vocab": False, "np_scalars": draw(st.sampled_from([False, False, False, True]))}
 
 
 @st.composite
@@ -781,7 +875,7 @@ def _tok_case_ids(draw, tier):
     fs = draw(st.sampled_from(_FS))
     items = []
     for _ in range(draw(st.integers(0, 6))):
-        tok = draw(st.integers(-3, 60))
+        tok = draw(st.one_of(st.integers(-3, 60), st.integers(-3, 60), _BIG_ID))
         if draw(st.booleans()):
             a, ln = draw(st.integers(0, 2000)), draw(st.integers(0, 50))
             items.append([tok, a, a + ln] if fs is None else [tok, (4 * a + 1) * fs / 4000, (4 * (a + ln) + 1) * fs / 4000, a, a + ln])
@@ -799,7 +893,8 @@ def _tok_strategy(tier):
           doc="injective vocabularies, OOV tokens with unk given as token or as id, frame shifts {None,10,1,0.0625} ms, times on the "
               "frame grid / a quarter frame off it / arbitrary floats, skip_frame_times: tensor shape, ids and (unambiguous) frame "
               "indices as documented; token_to_transcript returns the same tokens (unk for OOV) and times within one frame shift",
-          required_classes=["oov", "fs_None", "fs_0.0625", "timed", "untimed", "skip_frame_times", "no_vocab", "zero_length"])
+          required_classes=["oov", "fs_None", "fs_0.0625", "timed", "untimed", "skip_frame_times", "no_vocab", "zero_length",
+                            "id_beyond_int32", "frame_beyond_int32", "np_scalars"])
 def _token_roundtrip(case):
     import torch
 
@@ -807,9 +902,22 @@ def _token_roundtrip(case):
     fs = case["fs"]
     token2id = None if case["no_vocab"] else {w: i for w, i in case["vocab"]}
     id2token = None if case["no_vocab"] else {i: w for w, i in case["vocab"]}
+    np_scalars = bool(case.get("np_scalars"))
+    if np_scalars:
+        # ids as numpy integers (the module's own type variable for ids), times as numpy floats (np.isreal in the code)
+        import numpy as np
+
+        token2id = {w: np.int64(i) for w, i in token2id.items()}
     transcript = []
     for it in case["items"]:
-        transcript.append(it[0] if len(it) == 1 else (it[0], it[1], it[2]))
+        if len(it) == 1:
+            transcript.append(it[0])
+        elif np_scalars and fs is not None:
+            transcript.append((it[0], np.float64(it[1]), np.float64(it[2])))
+        else:
+            transcript.append((it[0], it[1], it[2]))
+    if np_scalars and len(transcript) % 2:
+        transcript = tuple(transcript)  # "Sequence"
     skip = case["skip_frame_times"]
     tok = data.transcript_to_token(transcript, token2id, fs, case["unk"], skip)
     R = len(transcript)
@@ -872,7 +980,8 @@ def _token_roundtrip(case):
         if fs is None:
             require([b[1], b[2]] == [it[1], it[2]], "frame times after the round trip", [b[1], b[2]], [it[1], it[2]])
         else:
-            tol = fs / 1000 * (1 + 1e-9) + 1e-12
+            # one frame shift, plus the resolution of a double at that magnitude (a few roundings at 2^-53 relative)
+            tol = fs / 1000 * (1 + 1e-9) + 1e-12 + 2e-15 * max(abs(it[1]), abs(it[2]))
             require(abs(b[1] - it[1]) <= tol and abs(b[2] - it[2]) <= tol, "times not recovered within one frame shift (%g s)" % (fs / 1000),
                     [b[1], b[2]], [it[1], it[2]])
     cl = ["fs_%s" % fs, "timing_" + case["timing"], "unk_" + case["unk_mode"]]
@@ -888,5 +997,414 @@ def _token_roundtrip(case):
         cl.append("skip_frame_times")
     if case["no_vocab"]:
         cl.append("no_vocab")
+    if any(i is not None and not -2 ** 31 <= i < 2 ** 31 for i in exp_ids):
+        cl.append("id_beyond_int32")
+    if not skip and any(len(it) > 1 and max(tok[r, 1:].tolist()) >= 2 ** 31 for r, it in enumerate(case["items"])):
+        cl.append("frame_beyond_int32")
+    if np_scalars:
+        cl.append("np_scalars")
     nontriv = any(len(it) > 1 for it in case["items"]) and fs is not None and not skip
     return Info(nontrivial=nontriv or bool(n_oov), classes=cl)
+
+
+# =============================================================================== ctm reader vs an independent writer
+
+
+@st.composite
+def _ctm_text_case(draw, tier):
+    case = draw(_ctm_case(tier))
+    case["decor"] = {
+        "shuffle": draw(st.lists(st.integers(0, 9), min_size=1, max_size=8)),
+        "sep": draw(st.lists(st.sampled_from([" ", " ", "  ", "\t", " \t "]), min_size=1, max_size=5)),
+        "lead": draw(st.lists(st.sampled_from(["", "", " ", "\t"]), min_size=1, max_size=3)),
+        # after a line: nothing / a trailing comment (the documented "there  ;; comment" form, also without the blanks) /
+        # a whole comment line or blank line that follows
+        "after": draw(st.lists(st.sampled_from(["", "", "  ;; comment", ";;x", " ;; ;; a b c d e f", "\n;; w A 0.0 1.0 commented_out",
+                                                  "\n", "\n   \n", "\n;;"]), min_size=1, max_size=6)),
+        "head": draw(st.sampled_from(["", ";; header comment\n", "\n;; a\n;; b\n"])),
+    }
+    return case
+
+
+@subcheck("C11", "ctm_reader_reference_text", lambda tier: _ctm_text_case(tier), quick=400, thorough=6000,
+          doc="ctm text from an independent serialiser: lines in a generated (not the mandated) order, fields separated by blanks/tabs, "
+              "';;' comment lines, trailing ';;' comments (as in the commands' help text and the repository's tests), blank lines: "
+              "read_ctm returns every utterance once with its tokens sorted by start time; the text of comments is ignored",
+          required_classes=["comment_line", "trailing_comment", "shuffled_lines", "tab_separated", "map_dict"])
+def _ctm_reader_reference(case):
+    data = _data()
+    _, _, wc2utt, key = _ctm_args(case)
+    dec = case["decor"]
+    lines = []
+    for u in case["corpus"]:
+        w, c = key[u["utt"]]
+        for tok, s, e in u["tokens"]:
+            lines.append([w, c, repr(s), repr(e - s), tok])
+    perm = tx.perm_of(dec["shuffle"], len(lines))
+    text = dec["head"]
+    k = 0
+    for n, i in enumerate(perm):
+        sep = [dec["sep"][(k + j) % len(dec["sep"])] for j in range(4)]
+        k += 4
+        f = lines[i]
+        text += dec["lead"][n % len(dec["lead"])] + f[0] + sep[0] + f[1] + sep[1] + f[2] + sep[2] + f[3] + sep[3] + f[4]
+        after = dec["after"][n % len(dec["after"])]
+        if after.startswith(";;") and f[4].endswith(";"):
+            after = " " + after  # "a;" + ";;x" would read as the token "a" and the comment ";x"
+        text += after + "\n"
+    got = data.read_ctm(io.StringIO(text), wc2utt)
+    _ctm_compare(case, got, key, "read_ctm(reference text)", ordered=False)
+    # "the waveform file names are treated as the utterance IDs, and the channel is ignored"
+    if wc2utt is not None:
+        got2 = tx.plain(data.read_ctm(io.StringIO(text)))
+        waves = sorted({key[u["utt"]][0] for u in case["corpus"] if u["tokens"]})
+        require(sorted(g[0] for g in got2) == waves, "read_ctm without wc2utt: utterances are the waveform names", sorted(g[0] for g in got2), waves)
+        ntok = sum(len(u["tokens"]) for u in case["corpus"])
+        require(sum(len(g[1]) for g in got2) == ntok, "read_ctm without wc2utt: every token kept", sum(len(g[1]) for g in got2), ntok)
+    info = _ctm_info(case)
+    cl = list(info.classes)
+    if lines:
+        used_after = {dec["after"][n % len(dec["after"])] for n in range(len(lines))}
+        if any(a.startswith("\n;;") for a in used_after) or dec["head"]:
+            cl.append("comment_line")
+        if any(a and not a.startswith("\n") for a in used_after):
+            cl.append("trailing_comment")
+        if any("\t" in dec["sep"][j % len(dec["sep"])] for j in range(4 * len(lines))):
+            cl.append("tab_separated")
+        if perm != sorted(perm):
+            cl.append("shuffled_lines")
+    return Info(nontrivial=info.nontrivial or (len(lines) >= 3 and perm != sorted(perm)), classes=cl)
+
+
+# =============================================================================== token tensors in other memory layouts
+
+_LAYOUTS = tx.LAYOUTS
+
+
+@st.composite
+def _layout_case(draw, tier):
+    big = tier == "thorough"
+    shape = draw(st.sampled_from(["R3", "R3", "R3", "R1", "R"]))
+    rows = []
+    for _ in range(draw(st.integers(0, 9 if big else 6))):
+        i = draw(st.one_of(st.integers(-3, 12), st.integers(-3, 12), _BIG_ID))
+        if draw(st.booleans()):
+            a = draw(st.one_of(st.integers(0, 30), st.integers(0, 20000), _BIG_FRAME))
+            rows.append([i, a, a + draw(st.integers(0, 40))])
+        else:
+            rows.append([i, -1, -1])
+    ids = sorted({r[0] for r in rows})
+    return {"shape": shape, "rows": rows, "layout": draw(st.sampled_from(_LAYOUTS)), "junk": draw(st.sampled_from([-1, 0, 7, 2 ** 62, -2 ** 63])),
+            "fs": draw(st.sampled_from(_FS)), "names": draw(st.one_of(st.none(), st.lists(tx.words(set(), max_size=3), min_size=len(ids), max_size=len(ids))))}
+
+
+@subcheck("C11", "token_tensor_layouts", lambda tier: _layout_case(tier), quick=600, thorough=8000,
+          doc="token_to_transcript on (R,3) / (R,1) / (R,) long tensors that are views into larger tensors filled with other values "
+              "(storage offset, row slice, column slice, transposed, every other row): same transcript as for the tensor's values "
+              "(ids mapped, -1 boundaries dropped, frames * shift / 1000 in exact rationals at 1e-12), twice in a row, input untouched",
+          required_classes=["layout_storage_offset", "layout_row_slice", "layout_col_slice", "layout_transposed", "layout_strided_rows",
+                            "shape_R3", "shape_R1", "shape_R", "noncontiguous", "timed"])
+def _token_tensor_layouts(case):
+    import torch
+
+    data = _data()
+    rows, fs, shape = case["rows"], case["fs"], case["shape"]
+    if shape == "R3":
+        t = torch.tensor(rows, dtype=torch.long).view(-1, 3)
+    elif shape == "R1":
+        t = torch.tensor([r[0] for r in rows], dtype=torch.long).view(-1, 1)
+    else:
+        t = torch.tensor([r[0] for r in rows], dtype=torch.long)
+    v, base = tx.as_layout(torch, t, case["layout"], case["junk"])
+    assert torch.equal(v, t), "harness: the view does not hold the values"
+    ids = sorted({r[0] for r in rows})
+    id2token = None if case["names"] is None else dict(zip(ids, case["names"]))
+    exp = []
+    for i, a, b in rows:
+        tok = i if id2token is None else id2token[i]
+        if shape != "R3" or a == -1:
+            exp.append([tok])
+        elif fs is None:
+            exp.append([tok, a, b])
+        else:
+            exp.append([tok, Fraction(a) * Fraction(fs) / 1000, Fraction(b) * Fraction(fs) / 1000])
+    before = base.clone()
+    for attempt in (1, 2):
+        got = data.token_to_transcript(v, id2token, fs)
+        require(len(got) == len(exp), "token_to_transcript length (call %d, layout %s)" % (attempt, case["layout"]), len(got), len(exp))
+        for r, (g, e) in enumerate(zip(got, exp)):
+            if len(e) == 1:
+                ok = not isinstance(g, tuple) and g == e[0]
+            else:
+                ok = isinstance(g, tuple) and len(g) == 3 and g[0] == e[0] and all(
+                    abs(Fraction(x) - y) <= Fraction(1, 10 ** 12) * (1 + abs(y)) for x, y in zip(g[1:], e[1:]))
+            require(ok, "row %d of a %s tensor laid out as %s (call %d)" % (r, shape, case["layout"], attempt), tx.plain(g),
+                    [e[0]] + [float(x) for x in e[1:]])
+        require(torch.equal(base, before), "token_to_transcript changed its input tensor", None, None)
+    cl = ["layout_" + case["layout"], "shape_" + shape, "fs_%s" % fs]
+    if not v.is_contiguous():
+        cl.append("noncontiguous")
+    if v.numel() and v.storage_offset():
+        cl.append("nonzero_storage_offset")
+    if shape == "R3" and any(r[1] != -1 for r in rows):
+        cl.append("timed")
+    return Info(nontrivial=case["layout"] != "own" and len(rows) >= 2, classes=cl)
+
+
+# =============================================================================== read_trn_iter: call patterns
+
+
+def _iter_strategy(tier):
+    k = st.integers(0, 2)
+    return st.fixed_dictionaries({
+        "texts": st.lists(_trn_corpus(tier, max_utts=6), min_size=3, max_size=3),
+        "modes": st.lists(st.sampled_from(["file", "path", "pool_file", "pool_path"]), min_size=3, max_size=3),
+        "blank": st.lists(st.sampled_from(["", "", "\n"]), min_size=1, max_size=3),
+        "schedule": st.lists(st.tuples(k, st.sampled_from(["next", "next", "next", "next", "close", "reopen"])).map(list), min_size=4, max_size=24),
+        "order": st.lists(st.integers(0, 6), min_size=1, max_size=6),
+        "wrap": st.just([-1, -1]), "times": st.just([None]),
+    })
+
+
+@subcheck("C11", "trn_iter_patterns", _iter_strategy, quick=400, thorough=6000,
+          doc="three read_trn_iter iterators (open file / path, serial / simulated pool) advanced in a generated interleaving, some "
+              "abandoned half-way (close) and re-created, the rest held open and drained at the end, then every file read again in one "
+              "go: each item is the item of its own file at its own position; the end of an iterator comes exactly after the last line",
+          required_classes=["interleaved", "abandoned_midway", "restarted", "held_open_until_end", "mode_path", "mode_pool_file", "mode_pool_path"])
+def _trn_iter_patterns(case):
+    data = _data()
+    exps, texts = [], []
+    for c in case["texts"]:
+        sub = {"corpus": c, "wrap": case["wrap"], "times": case["times"], "blank": case["blank"]}
+        texts.append(_trn_mp_text(sub))
+        exps.append(_trn_expected(sub))
+    cl = set()
+    with tx.scratch() as d, tx.simulated_pool(case["order"]):
+        paths = []
+        for k, t in enumerate(texts):
+            paths.append(os.path.join(d, "t%d.trn" % k))
+            tx.write_text(paths[-1], t)
+
+        def make(k):
+            mode = case["modes"][k]
+            cl.add("mode_" + mode)
+            src = paths[k] if mode.endswith("path") else io.StringIO(texts[k])
+            if mode.startswith("pool"):
+                return data.read_trn_iter(src, False, 2, 1 + k)
+            return data.read_trn_iter(src, False)
+
+        its = [make(k) for k in range(3)]
+        pos = [0, 0, 0]
+        state = ["fresh"] * 3  # fresh / running / done / closed
+        last = None
+        for k, act in case["schedule"]:
+            if act == "reopen":
+                if state[k] in ("closed", "done"):
+                    its[k], pos[k], state[k] = make(k), 0, "fresh"
+                    cl.add("restarted")
+                continue
+            if state[k] in ("done", "closed"):
+                continue
+            if act == "close":
+                if state[k] == "running" and pos[k] < len(exps[k]):
+                    cl.add("abandoned_midway")
+                its[k].close()
+                state[k] = "closed"
+                continue
+            if last is not None and last != k and state[k] == "running":
+                cl.add("interleaved")
+            last = k
+            try:
+                item = next(its[k])
+            except StopIteration:
+                require(pos[k] == len(exps[k]), "iterator %d (%s) ended after %d of %d utterances" % (k, case["modes"][k], pos[k], len(exps[k])),
+                        pos[k], len(exps[k]))
+                state[k] = "done"
+                continue
+            require(pos[k] < len(exps[k]), "iterator %d (%s) yields beyond the end of its file" % (k, case["modes"][k]), tx.plain(item), None)
+            require(tx.plain(item) == exps[k][pos[k]], "iterator %d (%s), item %d: not that file's utterance at that position" % (
+                k, case["modes"][k], pos[k]), tx.plain(item), exps[k][pos[k]])
+            pos[k] += 1
+            state[k] = "running"
+        for k in range(3):
+            if state[k] in ("running", "fresh"):
+                rest = tx.plain(list(its[k]))
+                require(rest == exps[k][pos[k]:], "iterator %d (%s) held open across the other calls: remaining items" % (k, case["modes"][k]),
+                        rest, exps[k][pos[k]:])
+                if state[k] == "running":
+                    cl.add("held_open_until_end")
+        for k in range(3):
+            again = tx.plain(data.read_trn(paths[k], False))
+            require(again == exps[k], "file %d read again after the interleaved passes" % k, again, exps[k])
+    depth = max(tx.trn_depth(u["items"]) for c in case["texts"] for u in c) if any(case["texts"]) else 0
+    return Info(nontrivial="interleaved" in cl and sum(len(e) for e in exps) >= 3, classes=sorted(cl) + ["depth_%d" % depth])
+
+
+# =============================================================================== sizes across implementation thresholds
+
+_SZ_WORDS = ["a", "b", "c", "\u00e9", "w1", "w2", "x\u00a0y", "q\u2028r", "long-token", "@"]   # trn / TextGrid
+_SZ_CTM_WORDS = ["a", "b", "c", "é", "w1", "w2", "long-token", "@", ";"]
+_SZ_FMTS = ["trn_lines", "trn_long_line", "trn_long_token", "trn_depth", "trn_lines_real", "ctm_tokens", "ctm_utts", "textgrid",
+            "token_rows", "token_vocab"]
+
+
+def _nest(depth):
+    alt = {"alt": [["x"], ["y", "z"]]}
+    for i in range(depth - 1):
+        alt = {"alt": [["a%d" % (i % 7), alt], ["b"]]} if i % 3 else {"alt": [[alt], ["b", "c"]]}
+    return alt
+
+
+def _expand_trn(fmt, n, seed):
+    """corpus of a trn case, a pure function of (fmt, n, seed)."""
+    rng = tx.Lcg(seed)
+    if fmt in ("trn_lines", "trn_lines_real"):
+        corpus = []
+        for i in range(n):
+            items = [rng.pick(_SZ_WORDS) for _ in range(rng.next(4))]
+            if i % 5 == 3:
+                items.insert(rng.next(len(items) + 1), {"alt": [[rng.pick(_SZ_WORDS)], [rng.pick(_SZ_WORDS), rng.pick(_SZ_WORDS)]]})
+            if i % 11 == 7:
+                items.append(_nest(2))
+            corpus.append({"utt": "u%d" % i, "items": items})
+        return corpus
+    if fmt == "trn_long_line":
+        items = []
+        for j in range(n):
+            items.append(rng.pick(_SZ_WORDS) if j % 97 != 50 else {"alt": [[rng.pick(_SZ_WORDS)], ["k"]]})
+        return [{"utt": "first", "items": ["a"]}, {"utt": "long", "items": items}, {"utt": "last", "items": []}]
+    if fmt == "trn_long_token":
+        chars = "abc\u00e9\u00a0-\u2028"
+        tok = "s" + "".join(chars[rng.next(len(chars))] for _ in range(max(0, n - 2))) + "e"
+        utt = "".join("uv w"[rng.next(4)] for _ in range(n)).strip() or "u"
+        return [{"utt": "first", "items": ["a", tok, "b"]}, {"utt": utt, "items": [tok[: n // 2 + 1], "c"]}]
+    # trn_depth
+    return [{"utt": "flat", "items": ["a"]}, {"utt": "deep", "items": ["s", _nest(n), "e"]}, {"utt": "deep2", "items": [_nest(max(1, n - 1))]}]
+
+
+def _expand_ctm(fmt, n, seed):
+    rng = tx.Lcg(seed)
+    if fmt == "ctm_tokens":
+        ties = seed % 3 == 0
+        toks = []
+        for j in range(n):
+            k = (j * 7919) % n  # a permutation of 0..n-1 (7919 is prime and larger than n): input not sorted by time
+            s = (k // 2 if ties else k) / 8
+            toks.append([rng.pick(_SZ_CTM_WORDS), s, s + rng.next(5) / 8])
+        corpus = [{"utt": "ub", "tokens": [["b", 0.5, 1.0], ["a", 0.25, 0.5]]}, {"utt": "ua", "tokens": toks},
+                  {"utt": "uc", "tokens": []}]
+        return {"corpus": corpus, "timing": "dyadic", "map": {"kind": "channel", "channel": "B"} if seed % 2 else {"kind": "default"}}
+    corpus, triples = [], []
+    for i in range(n):
+        k = (i * 7919) % n
+        toks = [[rng.pick(_SZ_CTM_WORDS), rng.next(64) / 8, 8 + rng.next(8) / 8] for _ in range(rng.next(3))]
+        corpus.append({"utt": "u%d" % i, "tokens": toks})
+        triples.append(["u%d" % i, "w%d" % (k // 2), "AB"[k % 2]])  # two utterances share a waveform file
+    return {"corpus": corpus, "timing": "dyadic", "map": {"kind": "dict", "utt2wc": triples}}
+
+
+def _expand_textgrid(n, seed, p, kind, fill, base):
+    rng = tx.Lcg(seed)
+    scale = 10 ** p
+    points = kind != "interval"
+    pos = base * scale + rng.next(3)
+    entries = []
+    labels = _SZ_WORDS + ["", "a b", "item [2]:"]
+    for _ in range(n):
+        ln = 0 if points else rng.next(3)
+        gap = rng.next(3)
+        if ln + gap == 0:
+            gap = 1
+        entries.append([rng.pick(labels), pos / scale, (pos + ln) / scale])
+        pos += ln + gap
+    return {"p": p, "entries": entries, "point_tier": {"interval": False, "point": True, "infer": None}[kind], "ongrid": True, "tier_name": None,
+            "start_time": None, "end_time": None, "by": "default", "fill": fill}
+
+
+def _expand_token(fmt, n, seed, fs, skip):
+    rng = tx.Lcg(seed)
+    if fmt == "token_vocab":
+        V, R = n, 24
+    else:
+        V, R = 6, n
+    mod = 16411  # prime > every generated size: ids are distinct and not in file order
+    vocab = [["v%d" % i, (i * 31) % mod - 5] for i in range(V)]
+    items, a = [], rng.next(50)
+    for r in range(R):
+        w = vocab[(V - 1 - r) % V if r % 2 else rng.next(V)][0]
+        if r % 7 == 6:
+            items.append([w])
+            continue
+        ln = rng.next(4)
+        if fs is None:
+            items.append([w, a, a + ln])
+        else:
+            qs, qe = 1 + 2 * rng.next(2), 1 + 2 * rng.next(2)
+            if ln == 0:
+                qe = qs
+            ef = a if ln == 0 else max(a + 1, a + ln + (1 if qe == 3 else 0))
+            items.append([w, (4 * a + qs) * fs / 4000, (4 * (a + ln) + qe) * fs / 4000, a, ef])
+        a += ln + rng.next(3)
+    return {"vocab": vocab, "items": items, "fs": fs, "timing": "quarter", "unk_mode": "none", "unk": None, "skip_frame_times": skip,
+            "no_vocab": False, "np_scalars": False}
+
+
+def _size_grid(tier):
+    """Every (dimension, threshold size) cell, enumerated: the options of a cell (seed of the expansion, worker count, chunk
+    size, precision, ...) are derived from VERIF_SEED and the cell, so different seeds run different variants of every cell."""
+    big = tier == "thorough"
+    sizes = tx.THRESHOLDS_THOROUGH if big else tx.THRESHOLDS
+    base = int(os.environ.get("VERIF_SEED", "1"))
+    cases = []
+    for fi, fmt in enumerate(_SZ_FMTS):
+        if fmt == "trn_depth":
+            ns = [n for n in sizes if n <= 129]  # deeper nesting meets Python's recursion limit (writer and harness alike)
+        elif fmt == "trn_lines_real":
+            # the default chunk size of the multi-process reader is 1000 lines
+            ns = [999, 1000, 1001, 1023, 1024, 1025, 2001, 2049] if big else [1000, 1001, 1025, 2049]
+        else:
+            ns = sizes
+        for n in ns:
+            for v in range(6 if big else 2):
+                rng = tx.Lcg((base * 1000003 + fi * 10007 + n) * 16 + v)
+                case = {"fmt": fmt, "n": n, "seed": rng.next(10 ** 6)}
+                if fmt.startswith("trn"):
+                    case.update(processes=rng.pick([2, 4, 17]) if fmt != "trn_lines_real" else 2,
+                                chunk_size=rng.pick([1, 16, 17, 1000, 1024, 5000]), order=[rng.next(7) for _ in range(1 + rng.next(8))],
+                                via_path=bool(rng.next(2)))
+                    if fmt == "trn_lines_real" and v:
+                        continue
+                elif fmt == "textgrid":
+                    case.update(p=rng.pick([0, 1, 2, 3, 3, 6]), kind=["interval", "point", "infer"][(v + rng.next(2) * 2) % 3],
+                                fill=rng.pick([None, "sil"]), base=rng.pick([0, 0, 9, 990]))
+                elif fmt.startswith("token"):
+                    case.update(fs=rng.pick(_FS), skip=rng.next(4) == 0)
+                cases.append(case)
+    return cases
+
+
+@subcheck("C11", "size_thresholds", _size_grid, quick=340, thorough=1300, timeout_s=2400, exhaustive=True,
+          doc="enumerated grid: sizes 15/16/17 ... 1023/1024/1025, 2049 (thorough: to 8193) along every unbounded dimension - trn lines, tokens per line, "
+              "characters per token and utterance id, nesting depth (to 129), ctm tokens per utterance and utterances, TextGrid entries, "
+              "token rows, vocabulary size - with the input expanded deterministically from (size, seed) and judged by the same "
+              "oracles as the small cases (round trip, worker independence under the simulated pool and, for 1000-2049 lines with the "
+              "default chunk size region, a real fork pool)",
+          required_classes=["size_15_17", "size_31_33", "size_63_65", "size_127_129", "size_255_257", "size_1023_1025", "size_ge_2049",
+                            "fmt_trn_lines", "fmt_trn_long_line", "fmt_trn_depth", "fmt_ctm_tokens", "fmt_ctm_utts", "fmt_textgrid",
+                            "fmt_token_rows", "fmt_token_vocab", "fmt_trn_lines_real", "fmt_trn_long_token"])
+def _size_thresholds(case):
+    fmt, n, seed = case["fmt"], case["n"], case["seed"]
+    if fmt.startswith("trn"):
+        sub = {"corpus": _expand_trn(fmt, n, seed), "wrap": [-1, -1], "times": [None], "warn": False, "blank": [""],
+               "processes": case["processes"], "chunk_size": case["chunk_size"], "order": case["order"], "delays_ms": [0],
+               "via_path": case["via_path"]}
+        _trn_roundtrip(sub)
+        info = _trn_mp_body(sub, fmt == "trn_lines_real")
+    elif fmt.startswith("ctm"):
+        info = _ctm_roundtrip(_expand_ctm(fmt, n, seed))
+    elif fmt == "textgrid":
+        info = _tg_roundtrip(_expand_textgrid(n, seed, case["p"], case["kind"], case["fill"], case["base"]))
+    else:
+        info = _token_roundtrip(_expand_token(fmt, n, seed, case["fs"], case["skip"]))
+    return Info(nontrivial=True, classes=["fmt_" + fmt, tx.size_bucket(n), "%s_%s" % (fmt, tx.size_bucket(n))] + [c for c in info.classes if c in (
+        "several_chunks", "fill_requested", "point_tier", "interval_tier", "equal_starts", "interleaved_utts", "nested")])
